@@ -114,7 +114,8 @@ func TestC03(t *testing.T) {
 				os.MkdirAll(filepath.Join(dir, fmt.Sprintf("h%d", h)), 0o700)
 				path := filepath.Join(dir, fmt.Sprintf("h%d", h), "db")
 				key := realdb.DummyKey(fmt.Sprintf("c03-%d", h))
-				d, err := realdb.Open(path, key)
+				snk := &realdb.FlakySink{}
+				d, err := realdb.OpenFlaky(path, key, snk)
 				if err != nil {
 					r.Violation("create-fails", h, err.Error(), nil)
 					continue
@@ -134,7 +135,21 @@ func TestC03(t *testing.T) {
 						r.Count("stale_sibling_files", 1)
 					}
 					var want, got ops.Result
-					if ioFails {
+					auditFails := !ioFails && op.Kind.Mutating() && rng.IntN(10) == 0
+					if auditFails {
+						// the audit log cannot be made durable during this call: whatever the call reports, only
+						// acknowledged effects may survive a restart, and everything acknowledged before must
+						snk.FailSync.Store(true)
+						got = ops.ApplyReal(d, su, op)
+						snk.FailSync.Store(false)
+						if got.Class == refmodel.Other {
+							want = got
+						} else {
+							want = ops.ApplyModel(m, nil, true, op)
+						}
+						trace = append(trace, fmt.Sprintf("%s (audit log sync fails) -> %s", op, got))
+						r.Count("restarts_after_audit_failure", 1)
+					} else if ioFails {
 						// the file system fails during this call: whatever it reports, only acknowledged effects may survive a restart
 						realdb.BreakDir(path, func() { got = ops.ApplyReal(d, su, op) })
 						if got.Class == refmodel.OK {
@@ -166,7 +181,7 @@ func TestC03(t *testing.T) {
 						fail("file-unreadable", err.Error())
 						break
 					}
-					d2, err := realdb.Open(path, key)
+					d2, err := realdb.OpenFlaky(path, key, snk)
 					if err != nil {
 						fail("reopen-fails", "reopening with the same key failed: "+err.Error())
 						break
@@ -263,6 +278,10 @@ func TestC03(t *testing.T) {
 			r.Distinct(fmt.Sprintf("open file with mode %o", mode))
 		}
 		syscall.Umask(oldMask)
+	}
+
+	if r.Only < 0 {
+		largeDatabase(t, r, dir)
 	}
 
 	// ---- fixtures written by the pinned commit ----
@@ -383,8 +402,66 @@ func TestC03(t *testing.T) {
 			}
 		}
 	}
-	r.Require("opens_of_files_with_other_modes", "restarts_after_io_failure", "restarts_after_concurrent_writes", "histories", "restarts", "restarts_after_acknowledged_mutation", "restarts_after_failed_mutation", "restarts_with_newest_version_deleted", "fixtures", "restarts_of_continued_fixtures", "stale_sibling_files")
+	r.Require("opens_of_files_with_other_modes", "restarts_after_io_failure", "restarts_after_concurrent_writes", "histories", "restarts", "restarts_after_acknowledged_mutation", "restarts_after_failed_mutation", "restarts_with_newest_version_deleted", "fixtures", "restarts_of_continued_fixtures", "stale_sibling_files", "restarts_after_audit_failure", "restarts_of_large_databases")
 	r.Rule("seeded random histories of 20-30 operations over 3 ordinary names (+ empty and reserved), with a restart (second db.Open of the same path, full-state comparison with the model, per-name next-version probe on a copy, before/after hash+inode+mtime of the file) after EVERY operation; the history continues on the reopened handle half of the time. Plus 6 fixture databases written by the pinned commit. Distinct = (kind of the operation preceding the restart, its outcome class, number of names) and one class per fixture")
+}
+
+// largeDatabase: a database that grows by multi-megabyte values up to tens of megabytes. Each acknowledged
+// put must survive the next restart; a put that is refused (should the server have a size limit) must leave
+// the database as it was and openable.
+func largeDatabase(t *testing.T, r *evid.Run, dir string) {
+	os.MkdirAll(filepath.Join(dir, "large"), 0o700)
+	path := filepath.Join(dir, "large", "db")
+	key := realdb.DummyKey("c03-large")
+	d, err := realdb.Open(path, key)
+	if err != nil {
+		t.Error(err)
+		return
+	}
+	su := realdb.Super()
+	m := refmodel.New()
+	rng := r.Rand(424242)
+	total := 0
+	for i := 0; total < r.N(24, 120)<<20; i++ {
+		n := []int{3<<20 + 512<<10, 1 << 20, 2<<20 + 7, 700 << 10}[rng.IntN(4)]
+		val := make([]byte, n)
+		for k := 0; k < n; k += 8 {
+			x := rng.Uint64()
+			for b := 0; b < 8 && k+b < n; b++ {
+				val[k+b] = byte(x >> (8 * b))
+			}
+		}
+		op := ops.Op{Kind: ops.Put, Name: fmt.Sprintf("large/%d", i%5), Value: val}
+		probe := m.Clone()
+		want := ops.ApplyModel(probe, nil, true, op)
+		got := ops.ApplyReal(d, su, op)
+		r.Eval(1)
+		if got.Class == refmodel.OK {
+			if !ops.Agree(want, got) {
+				r.Violation("live-result-differs", -1, fmt.Sprintf("large database, put #%d of %d bytes: real %s, model %s", i, n, got, want), nil)
+				return
+			}
+			m = probe
+			total += n
+		} else {
+			total += n // a refusal: fine, but nothing may have changed
+		}
+		d2, err := realdb.Open(path, key)
+		if err != nil {
+			r.Violation("reopen-fails", -1, fmt.Sprintf("large database: after put #%d (%d bytes, returned %s, %d MiB of values acknowledged so far) the file does not open again: %v", i, n, got, total>>20, err), nil)
+			return
+		}
+		re, err := realdb.Dump(d2)
+		if err != nil || re.Canon() != m.Canon() {
+			r.Violation("restart-state-differs", -1, fmt.Sprintf("large database: after put #%d (%d bytes, returned %s) the reopened state differs from the acknowledged state (err %v)", i, n, got, err), nil)
+			return
+		}
+		r.Count("restarts_of_large_databases", 1)
+		if i%2 == 1 {
+			d = d2
+		}
+	}
+	r.Distinct("large database")
 }
 
 // concurrentWriters: several clients write at the same time; once every call has been acknowledged the
